@@ -7,6 +7,7 @@ CONSTANT Cancellable <- NoCancel
 CONSTANT CancelAt <- AnyAwait
 CONSTANT MaxStale = 0
 CONSTANT MaySilence = TRUE
+CONSTANT ConfPerTwice = 2
 CONSTANT FlushAfterConfirm = FALSE
 INVARIANT TypeOK
 INVARIANT WriteByOwner
